@@ -3522,6 +3522,10 @@ impl ToBitStream for Cuesheet {
                 tracks,
                 lead_out,
             } => {
+                // more digits than the field holds would be cut off
+                if catalog_number.len() > Self::CATALOG_LEN {
+                    return Err(CuesheetError::InvalidCatalogNumber.into());
+                }
                 w.write_from({
                     let mut number = [0; Self::CATALOG_LEN];
                     number
